@@ -746,6 +746,11 @@ theorem C10_covered_param_refs (env : Env F) (p : Param F) (hc : Covered env p)
     `findNormalString("*/")` -/
 theorem C10_source_comments_raw : commentsRaw = true := by decide
 
+/-- the eager reader reads comments of any length (`ReadComment`, regenerated by the C01 owner's extractor; `fixes/C01-9`): the eager
+    model's unbounded `readComment`, over which `C01_read_file_partial` and therefore `C10_index_equals_eager_partial` quantify, is the
+    code's reader.  Does not elaborate on a tree whose `ReadComment` abandons comments longer than `MAX_COMMENT_LENGTH` -/
+theorem C10_source_eager_comments_any_length : StepModel.Generated.rwCfg.commentsOfAnyLength = true := by decide
+
 /-- what the lazy side asks of a record of the eager reader's covered class, all of it about the bytes of the file: the keyword is
     upper case, the instance name is not `#0` and has at most `instanceIdDigits` significant digits, no parameter is an aggregate or a
     typed SELECT value, and every byte is below 256 -/
@@ -780,9 +785,11 @@ theorem lazyRecs_of_covered (env : Env F) (rs : List (Rec F × List Nat)) (hrec 
     references (aggregates are covered by `C10_scan_file_gaps` on the token grammar, but not yet through this bridge); (3) keywords with lower-case letters (the eager reader folds case, the lazy scanner
     `abort()`s — not conforming Part 21); (4) instance name `#0` and names with more than 20 significant digits; (5) bytes ≥ 256;
     (6) the source shape before `fixes/C10-7` (`commentsRaw`): there a comment containing `'` or `/*` derails the lazy scanner
-    (replayed, corpus `layout-apostrophe-in-comment`); (7) comments longer than 8192 bytes: the eager *model* has no `MAX_COMMENT_LENGTH`
-    (listed among its assumptions), the eager reader gives up on such a comment and skips the instance after it, the lazy scanner does not
-    (replayed, `layout:comment-above-8192`, kept as a finding).  Byte ranges are not part of the model's `Entry` and are not compared. -/
+    (replayed, corpus `layout-apostrophe-in-comment`).  Comments of any length are covered: the eager model's `readComment` has no length
+    bound, and that is the code's reader in the source shape with `fixes/C01-9` (`ReadComment` reads a comment of any length; regenerated
+    switch `commentsOfAnyLength`, tied here by `C10_source_eager_comments_any_length`) — before it the eager reader abandoned a comment
+    of more than 8192 characters and skipped the instance after it (class `layout:comment-above-8192`, still probed on every run).
+    Byte ranges are not part of the model's `Entry` and are not compared. -/
 theorem C10_index_equals_eager_partial (ops : FloatOps F) (lex : LexCfg) (cfg : RWCfg) (d : Dict) (strict : Bool)
     (hskip : cfg.skipInstanceSkipsComments = true) (hcri : lex.criSkipsComments = true) (hagg : cfg.aggrSkipsComments = true)
     (rs : List (Rec F × List Nat)) (g0 sp gE after : List Nat) (hg0 : Seps g0) (hsp : sp.all StepModel.isSpace = true) (hgE : Seps gE)
